@@ -12,6 +12,7 @@ import (
 
 	"github.com/virus-evolution/gofasta/pkg/encoding"
 	"github.com/virus-evolution/gofasta/pkg/fastaio"
+	"github.com/virus-evolution/gofasta/pkg/vhook"
 )
 
 // getAmbArr parses the ambiguities field from one line of the output of gofasta updown list to an array of
@@ -467,6 +468,7 @@ func getLines(refSeq []byte, cFR chan fastaio.EncodedFastaRecord, cUDs chan updo
 		udLine.ambCount = ambCount
 		udLine.snpsSorted = snpsSorted
 
+		vhook.Jitter("updown.getLines", FR.Idx)
 		cUDs <- udLine
 	}
 
